@@ -613,7 +613,7 @@ func c07Gen(rng *rand.Rand) *metaCase {
 	// acyclic reference graph: definition i may refer to definitions with a larger index
 	vals := make([]string, nd)
 	for i := range names {
-		v := core.Pick(rng, "abc", `\d{2}`, `[a-c]+`, `a{2}`, `[{]`, `(?:x|y)`, `(?:m|n)`, `\.`, `q?`, `\$_get`, `[$a-z_][$\w]*`, `a{1,2}${3}`, `\$1`, `$`, ",", `\.`, "x", "3", "é", `[^{}]`, `w{1,3}`, "x\u00a0", "\u00a0y", "z\u3000", "a\u2003")
+		v := core.Pick(rng, "-|_", "abc", `\d{2}`, `[a-c]+`, `a{2}`, `[{]`, `(?:x|y)`, `(?:m|n)`, `\.`, `q?`, `\$_get`, `[$a-z_][$\w]*`, `a{1,2}${3}`, `\$1`, `$`, ",", `\.`, "x", "3", "é", `[^{}]`, `w{1,3}`, "x\u00a0", "\u00a0y", "z\u3000", "a\u2003")
 		if i+1 < nd && feats["definition-chain-of-9-or-more"] {
 			v = core.Pick(rng, "a", "b", "[0-9]", "x?") + "{{" + names[i+1] + "}}"
 		} else if i+1 < nd && core.Chance(rng, 1, 2) {
@@ -678,6 +678,11 @@ func c07Gen(rng *rand.Rand) *metaCase {
 		default:
 			body = append(body, w+"{"+core.Pick(rng, "2", "1,3")+"}"+ref())
 		}
+	}
+	if nd > 0 && core.Chance(rng, 1, 5) {
+		// a reference on a line that starts with a quote character (inside and outside a cmdline block)
+		feats["reference-on-quote-line"] = true
+		body = append(body, "'"+ref()+"q", "##!> cmdline unix", "  'v"+ref(), "  ls", "##!<")
 	}
 	if bsAt >= 0 {
 		w := g.WordList(1)[0]
